@@ -165,6 +165,9 @@ func (e *AffEnv) ofd(v ssa.Value, depth int) Aff {
 			return affAtom(n)
 		}
 	}
+	if k, ok := immutableInit(v).(*ssa.Const); ok {
+		v = k // an immutable package-level variable initialised with a constant
+	}
 	switch x := v.(type) {
 	case *ssa.Const:
 		if i, ok := constInt(x); ok {
